@@ -524,12 +524,15 @@ def if_else(c, a, b, *rest):
     c = to_mat(c)
     a = to_mat(a)
     b = to_mat(b)
-    if not c.is_scalar():
-        raise InterpRaise("RuntimeError", "if_else condition must be scalar, got %s" % (c.shape,))
     k = "SX" if "SX" in (c.kind, a.kind, b.kind) else "DM"
     a, b = _bcast(a, b)
-    cc = c.s()
-    return MatVal(a.r, a.c, [[ite(cc, a.cells[i][j], b.cells[i][j]) for j in range(a.c)] for i in range(a.r)], k)
+    if c.is_scalar():
+        cc = c.s()
+        return MatVal(a.r, a.c, [[ite(cc, a.cells[i][j], b.cells[i][j]) for j in range(a.c)] for i in range(a.r)], k)
+    # CasADi: if_else is if_else_zero(c, a) + if_else_zero(!c, b), element-wise with scalar broadcasting
+    c, a = _bcast(c, a)
+    c, b = _bcast(c, b)
+    return MatVal(a.r, a.c, [[ite(c.cells[i][j], a.cells[i][j], b.cells[i][j]) for j in range(a.c)] for i in range(a.r)], k)
 
 
 # --------------------------------------------------------------------------- structure
